@@ -19,3 +19,23 @@ PROPS["C02"] = {
     ],
     "timeout": {"quick": 900, "thorough": 3000},
 }
+
+PROPS["C06"] = {
+    "level": "exploration",
+    "rule": "scan leg: one evaluation = one sandbox (tree with files of every offline built-in extractor at production paths in the states valid/empty/truncated/corrupt, working directory, TMPDIR) scanned once under one capability tuple through a real or a virtual root; non-trivial = the tree holds a file of an enabled extractor that reads through a host path (os/rpm, dotnet/pe, containers/containerd). image leg: one evaluation = one set of hostile layer tars loaded by one of FromV1Image / FromTarball / UnpackSquashed / UnpackSquashedFromTarball (+ CleanUp); non-trivial = at least one entry whose cleaned name or link target lies lexically outside the designated directory, or a symlink-then-write-through sequence; distinct by case JSON",
+    "assumptions": [
+        "scan: Capabilities is always set; a virtual root is scanned with DirectFS=false, a real root with DirectFS=true; java/pomxmlnet (network) is not enabled",
+        "scan: os/rpm runs with a 300 ms parse timeout instead of 5 min (C02 known finding os/rpm|bdb_overflow_cycle_timeout); trees with sockets/FIFOs are out of scope",
+        "image: every generated escape is bounded to stay inside the sandbox (targets >= 6 directories below the sandbox root, <= 4 '..' per name, absolute paths only name sandbox paths); the loaders run inside a chroot of the sandbox when chroot is permitted (evidence key jail_active)",
+        "only effects inside the sandbox are observable",
+    ],
+    "engine": "rapid",
+    "technique": "recursive before/after snapshots (path, type, link target, size, mode, SHA-256) of a sandbox around real scans and image loads; independent hop-by-hop symlink resolver; chroot jail",
+    "level_text": "Sampled exploration of trees/capabilities and of hostile tar streams, each decided by a snapshot oracle that does not depend on the implementation.",
+    "level_note": "The jail leg is a static CGO_ENABLED=0 binary; if chroot is refused the depth bound alone protects the host and evidence says jail_active=false.",
+    "legs": [
+        {"fam": "fuzzfam", "run": "^TestC06_scan$"},
+        {"fam": "jailfam", "run": "^TestC06_image$", "cgo": "0"},
+    ],
+    "timeout": {"quick": 900, "thorough": 2400},
+}
